@@ -87,12 +87,16 @@ def dec_outcome(o, env, T, ne):
 def prefix_points(n, full):
     if full or n <= 48:
         return list(range(n))
-    pts = set(range(0, 20)) | set(range(n - 20, n))
+    pts = set(range(0, 8)) | set(range(n - 8, n))
     for b in (127, 128, 129, 255, 256, 16383, 16384, 16385, 32768, 65535, 65536):
         for d in (-1, 0, 1):
             if 0 <= b + d < n:
                 pts.add(b + d)
-    step = max(1, n // 24)
+    for b in range(16384, n + 4, 16384):          # the ends of 16K-multiple fragments (PER), with their header octets
+        for d in range(-1, 5):
+            if 0 <= b + d < n:
+                pts.add(b + d)
+    step = max(1, n // 8)
     pts |= set(range(0, n, step))
     return sorted(p for p in pts if 0 <= p < n)
 
@@ -154,7 +158,7 @@ def run_batch(batch, codecs, ops, numerics, out):
                                 lambda: spec.encode(name, praw, check_types=True, check_constraints=True)))
                     if 'pre' in ops:
                         pre = []
-                        for k in prefix_points(len(data), c.get('fullprefix', True)):
+                        for k in prefix_points(len(data), len(data) <= 400):
                             d = dec_outcome(guarded(lambda: spec.decode(name, data[:k])), env, top, ne)
                             d.pop('v', None)
                             d.pop('msg', None)
